@@ -448,11 +448,13 @@ let handle toks =
        | "batchinv", [l] -> String.concat "," (List.map out (c_batch_invert_mont (List.map v (split_on ',' l))))
        | "batchinv", [] -> ""
        (* portable functions, limb-level model *)
-       | "gmul", [a; b] -> show (mul_generic (lim a) (lim b))
-       | "gadd", [a; b] -> show (add_generic (lim a) (lim b))
-       | "gsub", [a; b] -> show (sub_generic (lim a) (lim b))
-       | "gneg", [a] -> show (neg_generic (lim a))
-       | "gdouble", [a] -> show (double_generic (lim a))
+       | ("gmul" | "gmulA" | "gmulB"), [a; b] -> show (mul_generic (lim a) (lim b))
+       | "gmulAA", [a; _] -> show (mul_generic (lim a) (lim a))
+       | ("gadd" | "gaddA" | "gaddB"), [a; b] -> show (add_generic (lim a) (lim b))
+       | "gaddAA", [a; _] -> show (add_generic (lim a) (lim a))
+       | ("gsub" | "gsubA" | "gsubB"), [a; b] -> show (sub_generic (lim a) (lim b))
+       | ("gneg" | "gnegA"), [a] -> show (neg_generic (lim a))
+       | ("gdouble" | "gdoubleA"), [a] -> show (double_generic (lim a))
        | "gfrommont", [a] -> show (from_mont_generic (lim a))
        | "greduce", [a] -> show (reduce_generic (lim a))
        | "gbutterfly", [a; b] -> let (x, y) = butterfly_generic (lim a) (lim b) in show x ^ " " ^ show y
